@@ -65,7 +65,7 @@ class Graph:
 
 
 def bfs(env, inits, on_state=None, on_edge=None, max_states=200000, actions=None, max_outcomes=4096,
-        expand_terminal=False, key_fn=sdesc):
+        expand_terminal=False, key_fn=sdesc, action_filter=None, dev_bound=None):
     """inits: iterable of State.  on_state(key, state, graph) and on_edge(key, state, action, choices, key2,
     state2, reward, done, graph) may return a message to stop-and-report (collected in the returned list)."""
     g = Graph()
@@ -87,7 +87,7 @@ def bfs(env, inits, on_state=None, on_edge=None, max_states=200000, actions=None
     actions = list(actions or env.action_space.actions)
     while frontier:
         k, st = frontier.popleft()
-        for a in actions:
+        for a in (actions if action_filter is None else action_filter(k, actions)):
 
             def run(rng, st=st, a=a):
                 env._rng = rng
@@ -96,7 +96,7 @@ def bfs(env, inits, on_state=None, on_edge=None, max_states=200000, actions=None
                 except Exception as e:  # noqa: BLE001
                     return ('EXC', type(e).__name__, str(e)[:200])
 
-            for choices, res, _ in explore(run, max_runs=max_outcomes):
+            for choices, res, _ in explore(run, dev_bound=dev_bound, max_runs=max_outcomes):
                 g.transitions += 1
                 if isinstance(res[0], str):
                     problems.append((k, a.name, choices, f'step raised {res[1]}: {res[2]}'))
